@@ -29,7 +29,7 @@ The hook points of the harness between these steps: `primary.open.header_written
 `primary.open.file_opened`, `index.open.header_written`, `index.open.snapshot_read` (before the removal),
 `index.open.scan.truncated`, `index.open.state_loaded`, `index.open.file_opened`.
 -/
-import Sth.Model.Recover
+import Sth.Model.Translate
 
 namespace Sth
 
@@ -107,5 +107,146 @@ def openSteps (c : Cfg) (d : Disk) : List Disk :=
     match openPrimary c dS with
     | .error _ => []
     | .ok (dP, pmax, _, _) => openIndexSteps c pmax dP
+
+/-! ## the re-bucketing (store.go `translateIndex` + index.MoveFiles)
+
+When index.Open answers "wrong bit size", OpenStore runs `translateIndex` (Sth/Model/Translate.lean): it
+opens the OLD index with its own bit size (`loadBucketState` removes the snapshot file, or the scan cuts
+torn tails), builds the NEW index in a temporary directory `new_index*` INSIDE the index directory
+(header and file 0 at once, everything else when it is closed), closes both (the old index saves its
+table as a snapshot again), and then swaps the files with two calls of `index.MoveFiles`, each of which
+renames, one `os.Rename` at a time, the data files in ascending order from the header's first file while
+they exist, then the header, then the snapshot:
+
+    MoveFiles(old → `old_index*`)      old files out one by one, old header out, old snapshot out
+    MoveFiles(`new_index*` → index)    new files in one by one, new header in, new snapshot in
+    RemoveAll(`old_index*`)            (and, deferred, RemoveAll(`new_index*`))
+
+`translateSteps` lists the directories after each of these steps, in code order, the two temporary
+directories as separate components.  The swap is NOT crash-safe (known finding D13): between the first
+old file leaving and the new header arriving, the index directory holds a header whose log has a hole, or
+no header at all.  `TransStep.inWindow` marks those steps; `TransStep.point` is the hook point of the
+harness at which the image is taken.  (The plain index.Open that follows the translation runs on the last
+directory of the list; its steps are those of `openIndexSteps`.) -/
+
+/-- an index directory: header, data files, snapshot -/
+structure IdxDir where
+  ihdr : Option IdxHeader := none
+  ifiles : NMap Bytes := []
+  snap : Option Snap := none
+deriving DecidableEq, Repr
+
+/-- the store's directory (`main`: index directory, primary, freelist) and the two temporary directories
+    of the re-bucketing -/
+structure TransDir where
+  main : Disk
+  newTmp : IdxDir := {}
+  oldTmp : IdxDir := {}
+deriving DecidableEq, Repr
+
+/-- the steps of the re-bucketing after which the directory is listed -/
+inductive TransStep where
+  | oldOpened                 -- old index open (snapshot removed / torn tails cut), new index created: header + empty file 0
+  | newClosed                 -- new index closed: its files and snapshot complete in `new_index*`
+  | oldClosed                 -- old index closed: its snapshot saved again
+  | oldFileMoved (n : Nat)    -- old data file `n` renamed into `old_index*`
+  | oldHeaderMoved            -- old header renamed into `old_index*`
+  | oldMoved                  -- old snapshot renamed into `old_index*`: first MoveFiles done
+  | newFileMoved (n : Nat)    -- new data file `n` renamed into the index directory
+  | newHeaderMoved            -- new header renamed into the index directory
+  | newMoved                  -- new snapshot renamed into the index directory: second MoveFiles done
+  | oldRemoved                -- temporary directories removed
+deriving DecidableEq, Repr
+
+/-- the hook point of the harness at which the directory after the step is captured -/
+def TransStep.point : TransStep → String
+  | .oldOpened => "translate.copied"
+  | .newClosed => "translate.new_closed"
+  | .oldClosed => "translate.old_closed"
+  | .oldFileMoved _ => "movefiles.file_moved"
+  | .oldHeaderMoved => "movefiles.header_moved"
+  | .oldMoved => "translate.old_moved"
+  | .newFileMoved _ => "movefiles.file_moved"
+  | .newHeaderMoved => "movefiles.header_moved"
+  | .newMoved => "translate.new_moved"
+  | .oldRemoved => "translate.old_removed"
+
+/-- the D13 window: from the first old file leaving the index directory until the new header arrives -/
+def TransStep.inWindow : TransStep → Bool
+  | .oldFileMoved _ => true
+  | .oldHeaderMoved => true
+  | .oldMoved => true
+  | .newFileMoved _ => true
+  | _ => false
+
+/-- the file numbers index.MoveFiles goes through (`fileIter`): `first`, `first + 1`, … while the file
+    exists -/
+def fileRun (files : NMap Bytes) (first : Nat) : List Nat :=
+  let rec go (fuel n : Nat) : List Nat :=
+    match fuel with
+    | 0 => []
+    | fuel + 1 => if files.has n then n :: go fuel (n + 1) else []
+  go (files.length + 1) first
+
+/-- the files `ns` renamed away -/
+def delFiles (files : NMap Bytes) (ns : List Nat) : NMap Bytes := ns.foldl NMap.del files
+
+/-- the files `ns` of `src` renamed in (over a file of the same name, if there is one) -/
+def putFiles (files src : NMap Bytes) (ns : List Nat) : NMap Bytes :=
+  ns.foldl (fun fs n => fs.set n (fileOf src n)) files
+
+/-- the directories after each step of the re-bucketing, given the old header `h`, the directory `d` it
+    starts from, the old index as loaded (`ifiles`: torn tails cut; `bk`: its bucket table) and the
+    directory `dT` that `translateIndex` returns -/
+def transStepsOf (h : IdxHeader) (d : Disk) (ifiles : NMap Bytes) (bk : NMap Nat) (dT : Disk) :
+    List (TransStep × TransDir) :=
+  -- old index open: snapshot file removed, torn tails cut
+  let dO : Disk := { d with snap := none, ifiles := ifiles }
+  -- old index closed: its table saved again
+  let dC : Disk := { dO with snap := some ⟨8 * 2 ^ h.bits, bk.filter (·.2 ≠ 0)⟩ }
+  let new0 : IdxDir := { ihdr := dT.ihdr, ifiles := [(0, [])] }
+  let newD : IdxDir := { ihdr := dT.ihdr, ifiles := dT.ifiles, snap := dT.snap }
+  let olds := fileRun dC.ifiles h.first
+  let news := fileRun dT.ifiles 0
+  let mainA (k : Nat) : Disk := { dC with ifiles := delFiles dC.ifiles (olds.take k) }
+  let oldOut (k : Nat) : IdxDir := { ifiles := putFiles [] dC.ifiles (olds.take k) }
+  let dE : Disk := { dC with ifiles := delFiles dC.ifiles olds, ihdr := none, snap := none }
+  let oldAll : IdxDir := { ihdr := dC.ihdr, ifiles := putFiles [] dC.ifiles olds, snap := dC.snap }
+  let mainB (k : Nat) : Disk := { dE with ifiles := putFiles dE.ifiles dT.ifiles (news.take k) }
+  let newIn (k : Nat) : IdxDir := { newD with ifiles := delFiles dT.ifiles (news.take k) }
+  let dN : Disk := { mainB news.length with ihdr := dT.ihdr, snap := dT.snap }
+  [(.oldOpened, ⟨dO, new0, {}⟩), (.newClosed, ⟨dO, newD, {}⟩), (.oldClosed, ⟨dC, newD, {}⟩)] ++
+  (List.range olds.length).map (fun i =>
+    (.oldFileMoved (olds.getD i 0), ⟨mainA (i + 1), newD, oldOut (i + 1)⟩)) ++
+  [(.oldHeaderMoved, ⟨{ mainA olds.length with ihdr := none }, newD,
+      { oldOut olds.length with ihdr := dC.ihdr }⟩),
+   (.oldMoved, ⟨dE, newD, oldAll⟩)] ++
+  (List.range news.length).map (fun i =>
+    (.newFileMoved (news.getD i 0), ⟨mainB (i + 1), newIn (i + 1), oldAll⟩)) ++
+  [(.newHeaderMoved, ⟨{ mainB news.length with ihdr := dT.ihdr },
+      { newIn news.length with ihdr := none }, oldAll⟩),
+   (.newMoved, ⟨dN, {}, oldAll⟩),
+   (.oldRemoved, ⟨dN, {}, {}⟩)]
+
+/-- the directories after each step of the re-bucketing `translateIndex kind pmax pfn plen newBits ifsArg d
+    order`, in code order; empty if `translateIndex` fails -/
+def translateSteps (kind : PKind) (pmax pfn plen : Nat) (newBits ifsArg : Nat) (d : Disk)
+    (order : List Nat) : List (TransStep × TransDir) :=
+  match d.ihdr with
+  | none => []
+  | some h =>
+    let imax := if ifsArg = 0 then h.max else ifsArg
+    let usable : Bool := match d.snap with
+      | some s => s.size == 8 * 2 ^ h.bits
+      | none => false
+    let loaded : Option (NMap Bytes × NMap Nat) :=
+      if usable then some (d.ifiles, (d.snap.map (·.nz)).getD [])
+      else (scanIndex (2 ^ h.bits) imax d.ifiles h.first).map fun (files, bk, _) => (files, bk)
+    match loaded with
+    | none => []
+    | some (ifiles, bk) =>
+      match translateIndex kind pmax pfn plen newBits ifsArg d order with
+      | .error _ => []
+      | .ok (dT, _) => transStepsOf h d ifiles bk dT
 
 end Sth
